@@ -5,7 +5,12 @@ from __future__ import annotations
 from typing import TYPE_CHECKING
 
 from xknx.io.const import DEVICE_CONFIGURATION_REQUEST_TIMEOUT
-from xknx.knxip import DeviceConfigurationAck, DeviceConfigurationRequest, KNXIPFrame
+from xknx.knxip import (
+    DeviceConfigurationAck,
+    DeviceConfigurationRequest,
+    KNXIPBody,
+    KNXIPFrame,
+)
 
 from .request_response import RequestResponse
 
@@ -39,3 +44,14 @@ class DeviceConfiguration(RequestResponse[DeviceConfigurationAck]):
     def _create_knxipframe(self) -> KNXIPFrame:
         """Create KNX/IP Frame object to be sent to device."""
         return KNXIPFrame.init_from_body(self.device_configuration_request)
+
+    def _answers_request(self, body: KNXIPBody) -> bool:
+        """Accept only the DeviceConfigurationAck for the channel and sequence counter of this request."""
+        if isinstance(body, DeviceConfigurationAck):
+            return (
+                body.communication_channel_id
+                == self.device_configuration_request.communication_channel_id
+                and body.sequence_counter
+                == self.device_configuration_request.sequence_counter
+            )
+        return True
